@@ -39,6 +39,7 @@ def make_rsa(rng, clsmap):
   arts = {}
   shared = None
   tri = None
+  nm1 = None
   for slot in sorted(clsmap):
     c = clsmap[slot]
     aid = slot
@@ -59,6 +60,11 @@ def make_rsa(rng, clsmap):
         shared = gen.rsa_shared_pair(rng, 'x', 'y')
       src = shared[0] if c == 'sharedA' else shared[1]
       arts[slot] = checks.Art(aid, 'rsa', art.rsa_key(src.meta['n']), 'sharedprime', **dict(src.meta))
+    elif c in ('nm1A', 'nm1B'):
+      if nm1 is None:
+        nm1 = gen.rsa_nm1_pair(rng, 'x', 'y')
+      src = nm1[0] if c == 'nm1A' else nm1[1]
+      arts[slot] = checks.Art(aid, 'rsa', art.rsa_key(src.meta['n']), src.cls, **dict(src.meta))
     elif c in ('prime', 'even', 'square', 'pow2', 'oddlen', 'bits64', 'bits65', 'three', 'huge_e', 'empty_e'):
       arts[slot] = gen.rsa_degenerate(rng, aid, c)
     elif c.startswith('bits') and c[4:].isdigit() and c not in ('bits64', 'bits65'):
@@ -67,6 +73,16 @@ def make_rsa(rng, clsmap):
         nn = art.rand_prime_top2(rng, (b_ + 1) // 2) * art.rand_prime(rng, b_ - (b_ + 1) // 2 + 1)
         if nn.bit_length() == b_:
           break
+      arts[slot] = checks.Art(aid, 'rsa', art.rsa_key(nn), 'deg-' + c, n=nn, e=65537, crit={x: 'may' for x in gen.RSA_CHECKS})
+    elif c.startswith('kptab') and c[5:].isdigit():
+      # a modulus of the given size whose 64 leading bits are a key of the shipped Keypair table (the check regenerates
+      # primes for it) although the vulnerable generator did not produce it
+      from paranoid_crypto.lib import rsa_single_checks
+      tab = sorted(rsa_single_checks.CheckKeypairDenylist()._table)   # pylint: disable=protected-access
+      b_ = int(c[5:])
+      nn = (tab[rng.randrange(len(tab))] << (b_ - 64)) | (rng.getrandbits(b_ - 64) if b_ > 64 else 0) | 1
+      if b_ == 64:
+        nn = tab[rng.randrange(len(tab))]
       arts[slot] = checks.Art(aid, 'rsa', art.rsa_key(nn), 'deg-' + c, n=nn, e=65537, crit={x: 'may' for x in gen.RSA_CHECKS})
     elif c == 'pattern4096':
       from pv import weak
@@ -191,6 +207,12 @@ def make_ecdsa(rng, clsmap):
       groups[slot] = gen.healthy_sigs(rng, slot + '-', 'secp256k1', 3)
     elif c == 'healthy12':
       groups[slot] = gen.healthy_sigs(rng, slot + '-', 'secp256r1', 12)
+    elif c in ('healthy23', 'healthy24', 'healthy25', 'healthy48', 'healthy120'):
+      # exactly one / two / five full lattice windows of one honest issuer
+      groups[slot] = gen.healthy_sigs(rng, slot + '-', 'secp256r1', int(c[7:]))
+    elif c == 'crowd':
+      # 400 honest issuers with two signatures each: one lattice guess per issuer, some hundred guesses on one curve in one call
+      groups[slot] = [sg for j in range(400) for sg in gen.healthy_sigs(rng, '%s-%d-' % (slot, j), 'secp256r1', 2)]
     elif c == 'lcgA':
       # nonces from GMP's truncated LCG (size 32) through the system libgmp: the LCG check must flag them
       from pv import drive_C08
@@ -213,7 +235,7 @@ def make_ecdsa(rng, clsmap):
         sg.cls = 'close192'
         sg.meta['crit'] = dict({x: 'may' for x in gen.ECDSA_CHECKS})
       groups[slot] = sigs
-    elif c == 'msbA':
+    elif c in ('msbA', 'msbB', 'msbC'):
       groups[slot] = gen.msb_biased_sigs(rng, slot + '-', 'secp256r1', 8, 64)
     elif c == 'msb384':
       groups[slot] = gen.msb_biased_sigs(rng, slot + '-', 'secp384r1', 14, 64)
